@@ -4,10 +4,11 @@
   links as a native executable.
 -/
 import DateutilVerif.Ops.Base
+import DateutilVerif.Ops.CacheOps
 import DateutilVerif.Ops.QueryOps
 
 def handlers : List (String → List String → Option String) :=
-  [Ops.Base.handle, Ops.QueryOps.handle]
+  [Ops.Base.handle, Ops.CacheOps.handle, Ops.QueryOps.handle]
 
 def dispatch (line : String) : String :=
   match (line.trimAscii.toString.splitOn " ").filter (· ≠ "") with
